@@ -142,6 +142,10 @@ Scalars(s, q) ==
   ELSE IF q.bhf # BL(s.fbu, LiveHF(s), LAMBDA h : BndHF(s, h)) THEN "bhf_iter"
   ELSE IF q.bf # BL(s.fbu, LiveF(s), LAMBDA f : BndF(s, f)) THEN "bf_iter"
   ELSE IF q.bc # BL(s.fbu, LiveC(s), LAMBDA c : BndC(s, c)) THEN "bc_iter"
+  ELSE IF \E f \in LiveF(s) : s.fbu /\
+            At(q.fcells, f) # <<(IF CellsOfHF(s, 2 * f) = {} THEN -1 ELSE CHOOSE c \in CellsOfHF(s, 2 * f) : TRUE),
+                                (IF CellsOfHF(s, 2 * f + 1) = {} THEN -1 ELSE CHOOSE c \in CellsOfHF(s, 2 * f + 1) : TRUE)>>
+       THEN "face_cells"
   ELSE IF \E h \in LiveHF(s) : s.fbu /\ At(q.incq, h) # (IF CellsOfHF(s, h) = {} THEN -1 ELSE CHOOSE c \in CellsOfHF(s, h) : TRUE)
        THEN "incident_cell"
   ELSE ""
@@ -183,6 +187,11 @@ Mirror(s, q, full) ==
             to == IF Side(h) = 0 THEN e[2] ELSE e[1]
         IN r # <<fr, to, fr, to, Opp(h), to, fr>>
   THEN "halfedge/opposite_halfedge"
+  ELSE IF \E e \in Hs(s.edges) :
+        LET d == At(s.edges, e) IN At(q.conv, e) # <<d[1], d[2], 2 * e, 2 * e + 1, d[1], d[2], d[2], d[1]>>
+  THEN "edge_vertices/edge_halfedges/halfedge_vertices"
+  ELSE IF \E f \in Hs(s.faces) : At(q.fhfs, f) # <<2 * f, 2 * f + 1>>
+  THEN "face_halffaces"
   ELSE IF \E h \in 0 .. (NHF(s) - 1) : At(q.hfhes, h) # HFHes(s, h) \/ At(q.hfopp, h) # HFHes(s, Opp(h))
   THEN "halfface/opposite_halfface"
   ELSE IF \E i \in DOMAIN q.nxt :
